@@ -171,6 +171,38 @@ func scenario(c cfg) vrt.Scenario {
 			// the users trigger returns when its context ends; in-flight bodies are
 			// awaited separately, as Run.run does
 			vrt.Recv(mgr.WaitForCompletion())
+		case "stages-rate":
+			// two rate-driven stages on one manager; the limit is reached during the first
+			yaml := fmt.Sprintf(`scenario: s
+limits:
+  max-duration: 1m
+  concurrency: %d
+  max-iterations: %d
+  ignore-dropped: false
+stages:
+- duration: 300ms
+  mode: constant
+  rate: 2/100ms
+  jitter: 0
+  distribution: none
+- duration: 300ms
+  mode: constant
+  rate: 1/100ms
+  jitter: 0
+  distribution: none
+`, c.workers, c.limit)
+			rs, err := file.ParseConfigFile([]byte(yaml), vtime.Now())
+			if err != nil {
+				panic(err)
+			}
+			done := make(chan struct{})
+			vrt.GoNamed("stages", func() {
+				rs.VerifStagesWorker()(ctx, ui.NewDiscardOutput(), mgr, options.RunOptions{Concurrency: c.workers, MaxIterations: c.limit})
+				vrt.Close(done)
+			})
+			vrt.Recv(done)
+			cancel()
+			vrt.Recv(mgr.WaitForCompletion())
 		case "stages":
 			yaml := fmt.Sprintf(`scenario: s
 limits:
@@ -309,6 +341,17 @@ func oracle(c cfg, o *vrt.Outcome) {
 	o.Sig = fmt.Sprintf("started=%d dropped=%d hw=%d", started, dropped, x.hw)
 	switch p {
 	case "C02":
+		if c.kind == "stages-rate" {
+			// the ticks are timer-driven here: under deviations a slow worker can legitimately
+			// have work superseded by the next tick, so silence is asked on the default schedule only
+			if dropped != 0 && o.Cost == 0 {
+				o.Fail("C02/limit-drop-reported", "later-stage", fmt.Sprintf("limit %d reached during the first stage: %d requests of the later stage reported dropped (started %d)", c.limit, dropped, started))
+			}
+			if started != int64(c.limit) && o.Cost == 0 {
+				o.Fail("C02/limit-started", "stages", fmt.Sprintf("limit %d: started %d", c.limit, started))
+			}
+			return
+		}
 		if c.kind != "trigger" {
 			return
 		}
@@ -462,6 +505,8 @@ func scenariosFor(tier string) []vrt.Scenario {
 		addDelay(2, cfg{kind: "trigger", workers: 2, ticks: q(1, 3), gate: "none", stop: "cancel-race"})
 		addDelay(2, cfg{kind: "trigger", workers: 2, ticks: q(2, 2), gate: "none", stop: "limit", limit: 1})
 		addDelay(2, cfg{kind: "trigger", workers: 3, ticks: im(3, 2), gate: "none", stop: "cancel-now"})
+		addDelay(1, cfg{kind: "stages-rate", workers: 2, limit: 3})
+		add(0, cfg{kind: "stages-rate", workers: 1, limit: 2})
 		if !quick {
 			for _, wk := range []int{1, 2, 3} {
 				b := bw[wk]
